@@ -85,13 +85,14 @@ def counter_iv(f):
     return ivs[0] if ivs else None
 
 
-def writer_shape(fw):
+def writer_shape(fw, frame=True):
     """'per-element': one loop with a 0,1,2,.. counter whose writes have constant sizes and analysable addresses, nothing
     else written between count word and footer; 'bulk': no loop, one write between count word and footer; else None"""
-    if len(fw["loops"]) == 1 and counter_iv(fw) is not None and fw["loop_items"] and fw["head_bytes"] == 20 and fw["tail_bytes"] == 8 \
+    framed = (fw["head_bytes"] == 20 and fw["tail_bytes"] == 8) if frame else (fw["head"] is not None and fw["tail"] is not None)
+    if len(fw["loops"]) == 1 and counter_iv(fw) is not None and fw["loop_items"] and framed \
             and all(it["bytes"] is not None and it["terms"] is not None for it in fw["loop_items"]):
         return "per-element"
-    if not fw["loops"] and len(fw["bulk"]) == 1 and fw["head_bytes"] == 20 and fw["tail_bytes"] == 8:
+    if not fw["loops"] and len(fw["bulk"]) == 1 and framed:
         return "bulk"
     return None
 
@@ -317,10 +318,13 @@ def check_writer(rep, rid, hw, fw):
     head, tail = fw["head"] or {}, fw["tail"] or {}
     word = lambda m, o: m[o][1][1] if o in m and m[o][0] == 4 and m[o][1][0] == 'ci' else None
     if fw["head_bytes"] != 20 or word(head, 0) != io.MAGIC_HEADER or word(head, 4) != TAG:
-        if fw["head"] is None or fw["head_bytes"] != 20:
-            rep.undecided("array<%s,%d> writer: the payload is not preceded by 20 bytes written with constant sizes; not decided" % (T, M))
+        if fw["head"] is None:
+            rep.undecided("array<%s,%d> writer: the payload is not preceded by writes of constant sizes; not decided" % (T, M))
             return None
-        why = "payload is not preceded by the global magic word and the array tag"
+        if fw["head_bytes"] != 20:
+            why = "the payload is preceded by %d bytes; the reader (and the format) has 20: two header words, the 4-byte width word and the 8-byte element count" % fw["head_bytes"]
+        else:
+            why = "payload is not preceded by the global magic word and the array tag"
     elif word(head, 8) != sz:
         why = "float-width word written is not sizeof(%s) = %d" % (T, sz)
     elif head.get(('src', 12)) != (8, ('ptr', obj, 0)) and not (head.get(12, (0, None))[0] == 8 and head[12][1][:4] == ('ld', obj, 0, 8)):
@@ -391,7 +395,7 @@ def dead(y):
 def assume(x, lits):
     """simplify x under the assumption that every literal holds; the literals are kept in step with the rewriting, so a
     literal that mentions a sub-condition already assumed is still recognised"""
-    from .hilbert_curve import const_fold
+    from .hilbert_curve import const_fold, subst
     lits = [const_fold(l) for l in lits]
     x = const_fold(x)
     i = 0
@@ -401,8 +405,9 @@ def assume(x, lits):
         if l in (ir.TRUE, ir.FALSE) or not isinstance(l, tuple):
             continue
         core, pol = (l[1], False) if l[0] == 'not' else (l, True)
-        x = const_fold(ir.restrict(x, core, pol))
-        lits[i:] = [const_fold(ir.restrict(m, core, pol)) for m in lits[i:]]
+        m_ = {core: ir.TRUE if pol else ir.FALSE}
+        x = const_fold(subst(ir.restrict(x, core, pol), m_))          # also below arithmetic nodes, where restrict does not look
+        lits[i:] = [const_fold(subst(ir.restrict(m, core, pol), m_)) for m in lits[i:]]
     return x
 
 
@@ -617,7 +622,7 @@ def run_c07(rep, tier):
             rep.fail("C07.b", inst, FILE, "reader: " + str(getattr(q, "failed", ["", "", "", "?"])[3]))
         else:
             rep.ok("C07.b", inst, sample={"array reader": inst, "width4": [e["conv"] for e in br[4]["stores"]], "width8": [e["conv"] for e in br[8]["stores"]]} if M == 3 else None)
-        shape = writer_shape(fw)
+        shape = writer_shape(fw, frame=False)          # the frame itself is compared with the frozen format below
         if shape is None:
             bad, decided = writer_stream(fw, hw)
             if bad:
